@@ -220,4 +220,49 @@ theorem rot3 (q : Quat K) (h2 : (2 : K) ≠ 0) (r : K)
     simp [Gen.M4.rotBranch3, Gen.Q.matrix, Gen.Q.neg, ofRows]
     refine ⟨?_, ?_, ?_, ?_⟩ <;> field_simp <;> ring
 
+section ordered
+variable {R : Type} [Field R] [LinearOrder R] [IsStrictOrderedRing R]
+
+set_option linter.unusedSimpArgs false in
+/-- branch selection of `rotation()` over an ordered field: the selected radicand is at least 1 -/
+theorem rotation_selects (C : Cmp R) (hlt : ∀ a b, C.lt a b = decide (a < b)) (q : Quat R) (hq : UnitQuat q) :
+    (Gen.M4.rotation (fld R) C (Gen.Q.matrix (fld R) q) = Gen.M4.rotBranch0 (fld R) (Gen.Q.matrix (fld R) q) (C.sqrt (Gen.M4.rotRadicand0 (fld R) (Gen.Q.matrix (fld R) q))) ∧ 1 ≤ Gen.M4.rotRadicand0 (fld R) (Gen.Q.matrix (fld R) q)) ∨
+    (Gen.M4.rotation (fld R) C (Gen.Q.matrix (fld R) q) = Gen.M4.rotBranch1 (fld R) (Gen.Q.matrix (fld R) q) (C.sqrt (Gen.M4.rotRadicand1 (fld R) (Gen.Q.matrix (fld R) q))) ∧ 1 ≤ Gen.M4.rotRadicand1 (fld R) (Gen.Q.matrix (fld R) q)) ∨
+    (Gen.M4.rotation (fld R) C (Gen.Q.matrix (fld R) q) = Gen.M4.rotBranch2 (fld R) (Gen.Q.matrix (fld R) q) (C.sqrt (Gen.M4.rotRadicand2 (fld R) (Gen.Q.matrix (fld R) q))) ∧ 1 ≤ Gen.M4.rotRadicand2 (fld R) (Gen.Q.matrix (fld R) q)) ∨
+    (Gen.M4.rotation (fld R) C (Gen.Q.matrix (fld R) q) = Gen.M4.rotBranch3 (fld R) (Gen.Q.matrix (fld R) q) (C.sqrt (Gen.M4.rotRadicand3 (fld R) (Gen.Q.matrix (fld R) q))) ∧ 1 ≤ Gen.M4.rotRadicand3 (fld R) (Gen.Q.matrix (fld R) q)) := by
+  obtain ⟨w, x, y, z⟩ := q
+  unfold UnitQuat at hq
+  simp only at hq
+  generalize ha : Gen.Q.matrix (fld R) ⟨w, x, y, z⟩ = a
+  have e00 : a 0 0 = 1 - 2 * (y * y + z * z) := by subst ha; simp [Gen.Q.matrix, ofRows]
+  have e11 : a 1 1 = 1 - 2 * (x * x + z * z) := by subst ha; simp [Gen.Q.matrix, ofRows]
+  have e22 : a 2 2 = 1 - 2 * (x * x + y * y) := by subst ha; simp [Gen.Q.matrix, ofRows]
+  simp only [Gen.M4.rotation, hlt, Gen.M4.rotRadicand0, Gen.M4.rotRadicand1, Gen.M4.rotRadicand2, Gen.M4.rotRadicand3,
+    fld_add, fld_sub, fld_lit, Nat.cast_zero, Nat.cast_one]
+  by_cases c0 : a 0 0 + a 1 1 + a 2 2 < 0
+  · by_cases c1a : a 0 0 < a 1 1
+    · by_cases c1b : a 1 1 < a 2 2
+      · by_cases c2 : a 0 0 < a 2 2
+        · right; right; left
+          simp only [c0, c1a, c1b, c2, decide_true, decide_false, Bool.not_true, Bool.not_false, Bool.and_false, Bool.false_eq_true, if_false, if_true, true_and]
+          rw [e00, e11, e22] at *; linarith
+        · right; right; right
+          simp only [c0, c1a, c1b, c2, decide_true, decide_false, Bool.not_true, Bool.not_false, Bool.and_false, Bool.false_eq_true, if_false, if_true, true_and]
+          rw [e00, e11, e22] at *; linarith
+      · right; left
+        simp only [c0, c1a, c1b, decide_true, decide_false, Bool.not_true, Bool.not_false, Bool.and_true, Bool.false_eq_true, if_false, if_true, true_and]
+        rw [e00, e11, e22] at *; linarith
+    · by_cases c2 : a 0 0 < a 2 2
+      · right; right; left
+        simp only [c0, c1a, c2, decide_true, decide_false, Bool.not_true, Bool.false_and, Bool.false_eq_true, if_false, if_true, true_and]
+        rw [e00, e11, e22] at *; linarith
+      · right; right; right
+        simp only [c0, c1a, c2, decide_true, decide_false, Bool.not_true, Bool.false_and, Bool.false_eq_true, if_false, if_true, true_and]
+        rw [e00, e11, e22] at *; linarith
+  · left
+    simp only [c0, decide_false, Bool.not_false, if_true, true_and]
+    linarith
+
+end ordered
+
 end AslProofs.Matrix
